@@ -44,6 +44,16 @@ def _cfg(tier):
 
 @st.composite
 def _case(draw, tier):
+    if chance(draw, 1, 12):
+        # the "implicit first argument" spelling of the repository's tests: predicate terms written as STATEMENTS inside
+        # `with a(T(From(d))) as q:`, negated afterwards with not_ / ~ (0-3 times)
+        from ..strategies import draw_dataset
+        cfg = _cfg(tier)
+        recs = draw_dataset(draw, cfg)
+        stmts = [{"pred": draw(st.sampled_from(["hastype:EntSub", "hastype:EntPlain", "hastype:EntV", "isbig"])),
+                  "negs": [draw(st.sampled_from(["not_", "~"])) for _ in range(draw(st.sampled_from([0, 1, 1, 1, 2, 3])))]}
+                 for _ in range(draw(st.sampled_from([1, 1, 2])))]
+        return {"family": "implicit", "ents": recs, "dom": list(draw(st.permutations(list(range(len(recs)))))), "stmts": stmts}
     c = draw(query_case(_cfg(tier)))
     c["neg_spelling"] = draw(st.sampled_from(["not_", "not_", "~", "desc"]))
     c["abandon_first"] = draw(st.sampled_from([0, 0, 1, 1, 2]))
@@ -127,7 +137,41 @@ def exhaustive(tier, shard, nshards):
                        "desc": "entity" if nv == 1 else "set_of", "neg_spelling": sp, "slice": True}
 
 
+def _check_implicit(case) -> Outcome:
+    from entity_query_language import a, From, symbolic_mode, HasType, not_
+    from ..world import Ent, IsBig, CLASSES
+    objs = build_entities(case["ents"])
+    dom = [objs[i] for i in case["dom"]]
+
+    def holds(o, st_):
+        v = (o.k >= 2) if st_["pred"] == "isbig" else isinstance(o, CLASSES[st_["pred"].split(":")[1]])
+        return v != (len(st_["negs"]) % 2 == 1)
+    expected = [(o,) for o in dom if isinstance(o, Ent) and all(holds(o, st_) for st_ in case["stmts"])]
+    classes = ["implicit_first_argument", f"statements{len(case['stmts'])}"] + sorted({f"negations{len(st_['negs'])}" for st_ in case["stmts"]})
+    nontrivial = 0 < len(expected) < len(dom) and any(st_["negs"] for st_ in case["stmts"])
+    try:
+        with symbolic_mode():
+            with a(Ent(From(dom))) as q:
+                for st_ in case["stmts"]:
+                    e = IsBig() if st_["pred"] == "isbig" else HasType(CLASSES[st_["pred"].split(":")[1]])
+                    for n in st_["negs"]:
+                        e = not_(e) if n == "not_" else ~e
+        for attempt in (1, 2):
+            got = [(r,) for r in q.evaluate()]
+            bad = compare_sets(expected, got, True)
+            if bad:
+                return fail(("" if attempt == 1 else "reevaluation_") + bad[0],
+                            f"implicit-first-argument statements {case['stmts']}, evaluation {attempt}: {bad[1]}",
+                            nontrivial=nontrivial, classes=classes, features=classes)
+    except Exception as e:
+        return fail("exception", f"implicit-first-argument statements {case['stmts']}: {type(e).__name__}: {e}",
+                    nontrivial=nontrivial, classes=classes, features=classes)
+    return Outcome(True, nontrivial=nontrivial, classes=classes, features=classes)
+
+
 def check(case) -> Outcome:
+    if case.get("family") == "implicit":
+        return _check_implicit(case)
     objs = build_entities(case["ents"])
     feats = case_features(case)
     cond = case["cond"]
@@ -174,6 +218,9 @@ def check(case) -> Outcome:
 
 
 def render(case):
+    if case.get("family") == "implicit":
+        return {"family": "predicate statements inside `with a(Ent(From(d))) as q:`", "statements": case["stmts"],
+                "domain": [case["ents"][i]["cls"] + "#" + str(case["ents"][i]["k"]) for i in case["dom"]]}
     r = render_query(case)
     r["negation_spelling"] = case.get("neg_spelling")
     return r
